@@ -45,6 +45,7 @@ func (srv *Srv) NewConn(c net.Conn) {
 
 func (conn *Conn) close() {
 	/* stops the send goroutine and releases every Respond waiting to hand over a reply */
+	verifPoint("close.done", conn, 0, 0)
 	close(conn.done)
 	conn.Srv.Lock()
 	delete(conn.Srv.conns, conn)
@@ -157,8 +158,8 @@ func (conn *Conn) recv() {
 			if req.next != nil {
 				req.next.prev = req
 			}
-			conn.Unlock()
 			verifPoint("recv.enqueued", req, uint32(tag), uint32(fc.Type))
+			conn.Unlock()
 			if process {
 				// Tversion may change some attributes of the
 				// connection, so we block on it. Otherwise,
@@ -185,6 +186,7 @@ func (conn *Conn) send() {
 			return
 
 		case req := <-conn.reqout:
+			verifPoint("send.dequeued", req, 0, 0)
 			SetTag(req.Rc, req.Tc.Tag)
 			conn.Lock()
 			conn.rsz += uint64(req.Rc.Size)
